@@ -3,7 +3,7 @@ import itertools
 
 import numpy as np
 
-from mv import geom, mf, repl
+from mv import gen_geom, geom, mf, repl
 from mv.runner import HypPart, Violation
 
 PROPERTY = "C04"
@@ -144,6 +144,10 @@ def oracle(case, stats):
         stats.mark_nontrivial(case)
 
 
+# patterns whose occurrences have several candidate numberings of which only some can be rotated into place get extra weight:
+# there the choice of numbering decides which atoms are removed
+CLASSES = gen_geom.PATTERN_CLASSES + ["mirror-pair", "mirror-pair", "chiral"]
+
 PARTS = [
-    HypPart("accounting", lambda tier: repl.replace_case(), oracle, {"quick": 4000, "thorough": 50000}),
+    HypPart("accounting", lambda tier: repl.replace_case(pattern_classes=CLASSES), oracle, {"quick": 10000, "thorough": 80000}),
 ]
